@@ -137,6 +137,17 @@ let first_diff (show : 'a -> string) (what : string) (exp : 'a list) (got : 'a l
         else Printf.sprintf " [%s: %d rows; first difference at row %d: expected %s, read back %s]" what (List.length exp) i (show x) (show y)
     | _ -> Printf.sprintf " [%s: expected %d rows, read back %d]" what (List.length exp) (List.length got) in
   go 0 exp got
+(* dense rows: the first differing column *)
+let first_diff_rows (what : string) (exp : z list list) (got : z list list) : string =
+  let rec col j e g = match e, g with
+    | x :: e', y :: g' -> if x = y then col (j + 1) e' g' else Printf.sprintf "column %d: expected %s, read back %s" j (show_z x) (show_z y)
+    | [], [] -> "" | _ -> Printf.sprintf "row lengths %d and %d" (List.length e + j) (List.length g + j) in
+  let rec go i e g = match e, g with
+    | [], [] -> ""
+    | x :: e', y :: g' -> if x = y then go (i + 1) e' g'
+        else Printf.sprintf " [%s: %d rows of %d cells; first difference at row %d, %s]" what (List.length exp) (List.length x) i (col 0 x y)
+    | _ -> Printf.sprintf " [%s: expected %d rows, read back %d]" what (List.length exp) (List.length got) in
+  go 0 exp got
 let show_name n = clip (String.concat "" (List.map (fun c -> let c = int_of_z c in
   if c >= 32 && c < 127 then String.make 1 (Char.chr c) else Printf.sprintf "\\x%02x" c) n))
 let cp_where (e : couples_result) (g : couples_result) : string =
@@ -147,11 +158,11 @@ let cp_where (e : couples_result) (g : couples_result) : string =
   ^ first_diff show_name "Files" e.cp_files g.cp_files
   ^ first_diff show_name "reversedPeopleDict" e.cp_names g.cp_names
 let bd_where (e : burndown_result) (g : burndown_result) : string =
-  first_diff show_zs "GlobalHistory" e.bd_global g.bd_global
+  first_diff_rows "GlobalHistory" e.bd_global g.bd_global
   ^ first_diff (fun (n, m) -> show_name n ^ " " ^ clip (String.concat "" (List.map show_zs m))) "FileHistories" e.bd_files g.bd_files
   ^ first_diff (fun (n, t) -> show_name n ^ " " ^ show_kvs t) "FileOwnership" e.bd_ownership g.bd_ownership
   ^ first_diff (fun m -> clip (String.concat "" (List.map show_zs m))) "PeopleHistories" e.bd_people g.bd_people
-  ^ (match e.bd_matrix, g.bd_matrix with Some a, Some b -> first_diff show_zs "PeopleMatrix" a b | _ -> "")
+  ^ (match e.bd_matrix, g.bd_matrix with Some a, Some b -> first_diff_rows "PeopleMatrix" a b | _ -> "")
   ^ first_diff show_name "reversedPeopleDict" e.bd_names g.bd_names
 let dv_where (e : devs_result) (g : devs_result) : string =
   first_diff (fun (t, ds) -> "tick " ^ show_z t ^ " with " ^ string_of_int (List.length ds) ^ " developer(s) " ^
